@@ -1229,6 +1229,10 @@ class WebSocketProtocol13(WebSocketProtocol):
                 self.close(1009, "message too big after decompression")
                 self._abort()
                 return None
+            except zlib.error:
+                # Not valid DEFLATE data: a protocol violation.
+                self._abort()
+                return None
 
         if opcode == 0x1:
             # UTF-8 data
